@@ -141,16 +141,25 @@ Section FM.
       - apply finstarted_false_findone; auto.
       - intro E. congruence. }
     destruct G as [W [D [P S]]].
-    pose proof (@fm_ready_spec st (flat_map g xs) W D P S) as Q.
-    destruct (fm_ready st) as [r st1]. destruct Q as [W' [D' [F' [P' [S' [R' M']]]]]].
-    destruct r; cbn [fst snd].
-    - destruct (R' eq_refl) as [_ E1]. rewrite E1, app_nil_r in S'.
-      cbn [R rec_push fin]. pose proof (rec_fin_lg (snd st1)) as L.
-      destruct (rec_fin (snd st1)) as [r2 s2]. cbn [fst snd] in *. unfold fm_lg, fm_pend in *.
-      cbn [fst snd]. rewrite L. rewrite E1.
-      destruct r2; cbn [wf finstarted findone existsb is_fin is_findone sent orb];
-        rewrite ?W', ?D'; cbn [negb andb]; rewrite ?app_nil_r; repeat split; auto.
-    - repeat split; auto.
+    destruct st as [buf s]. destruct buf as [bi|]; cbn [fst snd].
+    - (* buffer.is_some(): drain through poll_ready first *)
+      unfold fm_fin_drain.
+      pose proof (@fm_ready_spec (Some bi, s) (flat_map g xs) W D P S) as Q.
+      destruct (fm_ready (Some bi, s)) as [r st1]. destruct Q as [W' [D' [F' [P' [S' [R' M']]]]]].
+      destruct r; cbn [fst snd].
+      + destruct (R' eq_refl) as [_ E1]. rewrite E1, app_nil_r in S'.
+        cbn [R rec_push fin]. pose proof (rec_fin_lg (snd st1)) as L.
+        destruct (rec_fin (snd st1)) as [r2 s2]. cbn [fst snd] in *. unfold fm_lg, fm_pend in *.
+        cbn [fst snd]. rewrite L. rewrite E1.
+        destruct r2; cbn [wf finstarted findone existsb is_fin is_findone sent orb];
+          rewrite ?W', ?D'; cbn [negb andb]; rewrite ?app_nil_r; repeat split; auto.
+      + repeat split; auto.
+    - (* empty buffer: next.poll_finalize directly *)
+      unfold fm_lg, fm_pend in *. cbn [fst snd pendb] in *. rewrite app_nil_r in S.
+      cbn [R rec_push fin]. pose proof (rec_fin_lg s) as L.
+      destruct (rec_fin s) as [r2 s2]. cbn [fst snd] in *. rewrite L.
+      destruct r2; cbn [wf finstarted findone existsb is_fin is_findone sent orb pendb];
+        rewrite ?W, ?D; cbn [negb andb]; rewrite ?app_nil_r; repeat split; auto.
   Qed.
 
   Theorem flat_map_correct : forall fuel items rs0 fs0,
